@@ -65,6 +65,11 @@ type c15Rec struct {
 	injected   bool
 	stackMiss  int // the wrapper said "inside a unit" but no ApplyFuncIfNoError frame was on the stack
 	checkStack bool
+	// item campaigns (c15_apps_test.go): fault at the g-th store access made inside ANY unit, counted over the whole
+	// blocker run — independent of how the blocker cuts its work into units
+	useGlobal   bool
+	faultGlobal int
+	wrappedAcc  int
 }
 
 func c15FlatAccess(desc string) bool {
@@ -101,6 +106,16 @@ func (r *c15Rec) onGas(desc string) {
 	u := &r.units[r.cur.unit-1]
 	idx := u.own
 	u.own++
+	g := r.wrappedAcc
+	r.wrappedAcc++
+	if r.useGlobal && g == r.faultGlobal && !r.injected {
+		if !c15InsideApply() {
+			r.stackMiss++
+			return
+		}
+		r.injected = true
+		panic(c15Fault{})
+	}
 	if desc == storetypes.GasWriteCostFlatDesc || desc == storetypes.GasDeleteDesc {
 		u.writes++
 	}
